@@ -227,7 +227,7 @@ func (e *Executor) RunTask(ctx context.Context, call *Call) error {
 
 		for i := range t.Cmds {
 			if t.Cmds[i].Defer {
-				defer e.runDeferred(t, call, i, &deferredExitCode)
+				defer e.runDeferred(ctx, t, call, i, &deferredExitCode)
 				continue
 			}
 
@@ -302,8 +302,11 @@ func (e *Executor) runDeps(ctx context.Context, t *ast.Task) error {
 	return g.Wait()
 }
 
-func (e *Executor) runDeferred(t *ast.Task, call *Call, i int, deferredExitCode *uint8) {
-	ctx, cancel := context.WithCancel(context.Background())
+func (e *Executor) runDeferred(taskCtx context.Context, t *ast.Task, call *Call, i int, deferredExitCode *uint8) {
+	// A deferred command is not cancelled together with its task, but it is still
+	// made from the same executions (a deferred call of the task itself is a cycle)
+	ctx := context.WithValue(context.Background(), executionChainKey{}, taskCtx.Value(executionChainKey{}))
+	ctx, cancel := context.WithCancel(ctx)
 	defer cancel()
 
 	origTask, err := e.GetTask(call)
